@@ -72,7 +72,9 @@ def teardown(self: 'API', reactor: 'Reactor', service: str, peers: list[str], co
     try:
         # command contains the teardown code (e.g., "6" for code 6)
         code = command.strip()
-        if not code.isdigit():
+        # the code is the one octet subcode of the Cease NOTIFICATION: zero was silently ignored, and a
+        # value above 255 could not be encoded and closed the session without any NOTIFICATION
+        if not code.isdigit() or not 1 <= int(code) <= 255:
             reactor.processes.answer_error_sync(service)
             return False
         for peer_key in peers:
